@@ -94,6 +94,7 @@ type Sched struct {
 	nextTimerID int
 	Timers  []*TimerModel
 	ext     interface{}
+	acells  map[uintptr]*atomicCell
 	seq     bool
 	SeqSpawned []string
 }
